@@ -56,7 +56,7 @@ theorem exec_loadActualsV (K : PCtx) (wf : K.WF) : ∀ (es : List X.Expr) (fuel 
       loadActuals K.ctx (optArgsOf K.ρ es) p saved gs = .ok (code, gs') → At K.env.ds i (K.low code) → Rep K st mem →
       gs'.size + (p + es.length) ≤ K.S → K.nlocals ≤ gs.offset → gs.offset ≤ gs.size → ConstsIn K gs' →
       ∃ a' b' mem', Steps K.env (cfg i a b mem) io (cfg (i + (K.low code).length) a' b' mem') io ∧ Rep K st mem' ∧
-        (∀ k (hk : k < vs.length), mem'.read (K.sp + p + k) = wordOf K.abase vs[k]) ∧ (∀ v ∈ vs, okV v = true) ∧
+        (∀ k (hk : k < vs.length), K.VRep vs[k] (mem'.read (K.sp + p + k))) ∧
         (∀ q, q < p → mem'.read (K.sp + q) = mem.read (K.sp + q)) ∧
         FrmC K gs.offset K.S mem mem' := by
   intro es
@@ -72,7 +72,7 @@ theorem exec_loadActualsV (K : PCtx) (wf : K.WF) : ∀ (es : List X.Expr) (fuel 
       | zero => rw [evalArgs_zero] at hev; simp at hev
       | succ f => rw [evalArgs_nil] at hev; simp only [Res.ok.injEq] at hev; exact hev.1.symm
     subst hws
-    exact ⟨a, b, mem, Steps.refl _ _, hr, fun k hk => by simp at hk, fun v hv => by simp at hv, fun _ _ => rfl,
+    exact ⟨a, b, mem, Steps.refl _ _, hr, fun k hk => by simp at hk, fun _ _ => rfl,
       FrmC.refl _ _ _ _⟩
   | cons e rest ih =>
     intro fuel st s vs hp hev p saved gs code gs' i a b mem io hio hg hat hr hb hnl hos hci
@@ -82,7 +82,6 @@ theorem exec_loadActualsV (K : PCtx) (wf : K.WF) : ∀ (es : List X.Expr) (fuel 
     | succ f =>
       obtain ⟨v0, s1, vs', h1, h2, hvs⟩ := evalArgs_cons_inv _ _ _ _ _ _ _ hev
       subst hvs
-      obtain ⟨v, hvdef⟩ : ∃ v, v = wordOf K.abase v0 := ⟨_, rfl⟩
       have hpe := hp e (by simp)
       have hprest : ∀ x ∈ rest, pureE x = true := fun x hx => hp x (by simp [hx])
       simp only [optArgsOf, List.map_cons] at hg
@@ -94,8 +93,7 @@ theorem exec_loadActualsV (K : PCtx) (wf : K.WF) : ∀ (es : List X.Expr) (fuel 
         simp only [List.length_cons] at hb
         simp only [low_append, List.append_assoc] at hat ⊢
         have hA := expr_pure_val K wf f e st v0 s1 hpe h1
-        rw [← hvdef] at hA
-        obtain ⟨b1, mem1, st1, rep1, frm1⟩ := hA gs c gs1 i a b mem hg1 hat.left hr
+        obtain ⟨v, b1, mem1, hPv, st1, rep1, frm1⟩ := hA gs c gs1 i a b mem hg1 hat.left hr
           (by have := e2.2.1; omega) hnl (hci.of_eff e2)
         rw [hiB_true] at frm1
         -- store into the parameter slot
@@ -123,11 +121,11 @@ theorem exec_loadActualsV (K : PCtx) (wf : K.WF) : ∀ (es : List X.Expr) (fuel 
           rw [slot_of_out K p hpS]; exact e.symm
         have rep2 := rep1.frame wf frm2 (by have := e1.2.1; have := e2.2.1; omega) (by omega)
         have hs1 := eval_pure K.xc _ _ _ _ _ hpe h1
-        obtain ⟨a', b', mem', st3, rep3, hvals, hokv, hkeep, frm3⟩ := ih f s1 s vs' hprest h2 (p + 1) saved gs1 cs gs'
+        obtain ⟨a', b', mem', st3, rep3, hvals, hkeep, frm3⟩ := ih f s1 s vs' hprest h2 (p + 1) saved gs1 cs gs'
           (i + (K.low c).length + 1 + 1) v (mem1.read 1) (mem1.write (K.sp + p) v) st.io hs1.2.2.2.1 hg2
           (by simpa [Nat.add_assoc] using hat.right.right) (rep2.same hs1)
           (by omega) (by have := e1.1; omega) (by have := e1.1; have := e1.2.1; omega) hci
-        refine ⟨a', b', mem', ?_, rep3.same hs1.symm, ?_, ?_, ?_, ?_⟩
+        refine ⟨a', b', mem', ?_, rep3.same hs1.symm, ?_, ?_, ?_⟩
         · have : i + ((K.low c).length + ([Dir.imm 1 1, Dir.imm 8 (p : Int)].length + (K.low cs).length))
               = i + (K.low c).length + 1 + 1 + (K.low cs).length := by
             simp only [List.length_cons, List.length_nil]; omega
@@ -138,17 +136,15 @@ theorem exec_loadActualsV (K : PCtx) (wf : K.WF) : ∀ (es : List X.Expr) (fuel 
           cases k with
           | zero =>
             simp only [Nat.add_zero, List.getElem_cons_zero]
-            rw [hkeep p (by omega), Mem.read_write_same _ _ _ hsl1, hvdef]
+            rw [hkeep p (by omega), Mem.read_write_same _ _ _ hsl1]
+            exact hPv
           | succ k' =>
             simp only [List.length_cons] at hk
             have := hvals k' (by omega)
             simp only [List.getElem_cons_succ]
-            rw [← this]
-            congr 1; omega
-        · intro x hx
-          rcases List.mem_cons.mp hx with rfl | hx
-          · exact eval_pure_okV K f e st _ s1 mem hpe hr h1
-          · exact hokv x hx
+            have e : K.sp + p + (k' + 1) = K.sp + (p + 1) + k' := by omega
+            rw [e]
+            exact this
         · intro q hq
           rw [hkeep q (by omega), Mem.read_write_other _ _ _ _ (by omega)]
           apply frm1 _ (by omega) (wf.not_inArr _ (by omega))
@@ -164,10 +160,6 @@ theorem exec_loadActualsV (K : PCtx) (wf : K.WF) : ∀ (es : List X.Expr) (fuel 
             (by have := e1.2.1; have := e2.2.1; omega) (by omega) (by rw [slot_of_out K p hpS]; exact e.symm))]
           exact frm1 ad hsp hna (fun k h1' h2' => had k h1' (by have := e2.2.1; omega))
 
-theorem wordOf_int_getElem (abase : Nat → Nat) (ws : List Word) (k : Nat) (hk : k < (ws.map Val.int).length) :
-    wordOf abase (ws.map Val.int)[k] = ws[k]'(by simpa using hk) := by
-  simp [wordOf]
-
 /-- The same for integer actuals. -/
 theorem exec_loadActuals (K : PCtx) (wf : K.WF) (es : List X.Expr) (fuel : Nat) (st s : X.St) (ws : List Word)
     (hp : ∀ e ∈ es, pureE e = true) (hev : X.evalArgs fuel K.xc es st = .ok (ws.map Val.int) s)
@@ -178,12 +170,12 @@ theorem exec_loadActuals (K : PCtx) (wf : K.WF) (es : List X.Expr) (fuel : Nat) 
       (∀ k (hk : k < ws.length), mem'.read (K.sp + p + k) = ws[k]) ∧
       (∀ q, q < p → mem'.read (K.sp + q) = mem.read (K.sp + q)) ∧
       FrmC K gs.offset K.S mem mem' := by
-  obtain ⟨a', b', mem', h1, h2, h3, _, h5, h6⟩ := exec_loadActualsV K wf es fuel st s _ hp hev p saved gs code gs' i a b mem io hio
+  obtain ⟨a', b', mem', h1, h2, h3, h5, h6⟩ := exec_loadActualsV K wf es fuel st s _ hp hev p saved gs code gs' i a b mem io hio
     hg hat hr hb hnl hos hci
   refine ⟨a', b', mem', h1, h2, fun k hk => ?_, h5, h6⟩
   have := h3 k (by simpa using hk)
-  rw [this]
-  exact wordOf_int_getElem K.abase ws k (by simpa using hk)
+  simp only [List.getElem_map] at this
+  exact this
 
 /-! ### System-call statements -/
 
@@ -210,7 +202,7 @@ theorem optArgsOf_noCall (ρ : String → Option Word) (es : List X.Expr) (hp : 
 
 theorem Rep.setIo {K : PCtx} {σ : X.St} {mem : Mem} (h : Rep K σ mem) (io : Isa.IOSt) : Rep K { σ with io := io } mem :=
   ⟨h.sp, h.vals, fun n w hn hr => h.vars n w hn hr, h.consts, h.locs, h.above, h.gvis, h.depth,
-   fun n r hr => h.aptr n r hr, fun id cells hc => h.acells id cells hc⟩
+   fun n r hr => h.aptr n r hr, fun id cells hc => h.acells id cells hc, h.strs⟩
 
 theorem sysId_small (id : Nat) (h : id < 3) : sysIdOfNat id = (id : Int) := by
   unfold sysIdOfNat
@@ -247,6 +239,151 @@ theorem evalArgs_length (xc : X.Ctx) : ∀ (es : List X.Expr) (fuel : Nat) (st s
 theorem W_two : IAm.W ((2 : Nat) : Int) = 2 := by decide
 theorem W_oneN : IAm.W ((1 : Nat) : Int) = 1 := by decide
 theorem W_zeroN : IAm.W ((0 : Nat) : Int) = 0 := by decide
+
+/-- **The tail of a system call** (`LDAC id; SVC; LDAM sp; LDAI 1`), with the actuals in the
+    outgoing area. -/
+theorem exec_systail (K : PCtx) (wf : K.WF) (id : Nat) (hid : id < 3) (ws : List Word) (st s : X.St) (lc off j : Nat)
+    (a1 b1 : Word) (mem1 : Mem) (io : Isa.IOSt) (hio : s.io = io)
+    (hat : At K.env.ds j (K.low (callTail (.sys (id : Int)) lc))) (rep1 : Rep K st mem1)
+    (hvals : ∀ k (hk : k < ws.length), mem1.read (K.sp + 2 + k) = ws[k])
+    (hnl : K.nlocals ≤ off) (hoS : off + (ws.length + 2) ≤ K.S) :
+    match X.doSyscall (BitVec.ofNat 32 id) (ws.map Val.int) s with
+    | .exit cd _ => ∃ c, Steps K.env (cfg j a1 b1 mem1) io c io ∧ Exit K.env c io cd
+    | .ok r s' =>
+      ∃ a' b' mem', Steps K.env (cfg j a1 b1 mem1) io (cfg (j + (K.low (callTail (.sys (id : Int)) lc)).length) a' b' mem') s'.io ∧
+        Rep K st mem' ∧ (∀ v, r = some v → a' = v) ∧ FrmC K off K.S mem1 mem'
+    | .undef _ => True := by
+  -- without actuals every system call is undefined
+  by_cases hws : ws = []
+  · subst hws
+    have hid3 : id = 0 ∨ id = 1 ∨ id = 2 := by omega
+    rcases hid3 with rfl | rfl | rfl <;> (unfold X.doSyscall; simp)
+  have hwpos : 0 < ws.length := by
+    cases ws with
+    | nil => exact absurd rfl hws
+    | cons _ _ => simp
+  have hS3 : 3 ≤ K.S := by omega
+  have htail : K.low (callTail (.sys (id : Int)) lc) = [.imm 0x3 (id : Int), .opr 3, .imm 0x0 1, .imm 0x6 1] := rfl
+  rw [htail] at hat ⊢
+  have hat2 := hat
+  have t0 := hat2.get 0 _ rfl
+  have t1 := hat2.get 1 _ rfl
+  have t2 := hat2.get 2 _ rfl
+  have t3 := hat2.get 3 _ rfl
+  simp only [Nat.add_zero] at t0
+  obtain ⟨hs2a, _⟩ := wf.slot_ok (K.S - 1 - 2) (by omega)
+  rw [slot_of_out K 2 (by omega)] at hs2a
+  obtain ⟨hs1a, hs1b⟩ := wf.slot_ok (K.S - 1 - 1) (by omega)
+  rw [slot_of_out K 1 (by omega)] at hs1a hs1b
+  have sLdac := Step.ldac (env := K.env) (cfg (j) a1 b1 mem1) io (id : Int) t0
+  simp only [List.length_append, List.length_cons, List.length_nil]
+  have hid3 : id = 0 ∨ id = 1 ∨ id = 2 := by omega
+  rcases hid3 with rfl | rfl | rfl
+  · -- exit
+    unfold X.doSyscall
+    simp only [BitVec.ofNat_eq_ofNat, if_true]
+    cases ws with
+    | nil => trivial
+    | cons v rest =>
+      cases rest with
+      | cons _ _ => trivial
+      | nil =>
+        simp only [List.map_cons, List.map_nil]
+        have hv := hvals 0 (by simp)
+        simp only [Nat.add_zero, List.getElem_cons_zero] at hv
+        refine ⟨cfg (j + 1) (IAm.W ((0 : Nat) : Int)) b1 mem1, Steps.one sLdac, ?_⟩
+        apply Exit.svcExit
+        · exact t1
+        · exact W_zeroN
+        · show Isa.ld mem1 (mem1.read 1 + 2) = some v
+          rw [rep1.sp, add_two, ld_ofNat _ _ hs2a, hv]
+  · -- put
+    unfold X.doSyscall
+    simp only [BitVec.ofNat_eq_ofNat]
+    rw [if_neg (by decide), if_pos (by decide)]
+    cases ws with
+    | nil => trivial
+    | cons v1 rest =>
+      cases rest with
+      | nil => trivial
+      | cons v2 rest2 =>
+        cases rest2 with
+        | cons _ _ => trivial
+        | nil =>
+          simp only [List.map_cons, List.map_nil]
+          have hv1 := hvals 0 (by simp)
+          have hv2 := hvals 1 (by simp)
+          simp only [Nat.add_zero, List.getElem_cons_zero, List.getElem_cons_succ] at hv1 hv2
+          simp only [List.length_cons, List.length_nil] at hoS
+          obtain ⟨hs3a, _⟩ := wf.slot_ok (K.S - 1 - 3) (by omega)
+          rw [slot_of_out K 3 (by omega)] at hs3a
+          have l1 : Isa.ld mem1 (mem1.read 1 + 2) = some v1 := by
+            rw [rep1.sp, add_two, ld_ofNat _ _ hs2a, hv1]
+          have l2 : Isa.ld mem1 (mem1.read 1 + 3) = some v2 := by
+            rw [rep1.sp, add_three, ld_ofNat _ _ hs3a]
+            have : K.sp + 2 + 1 = K.sp + 3 := by omega
+            rw [← this, hv2]
+          have sSvc := Step.svcPut (env := K.env) (cfg (j + 1) (IAm.W ((1 : Nat) : Int)) b1 mem1) io v1 v2
+            t1 W_oneN l1 l2
+          have sLdam := Step.ldam (env := K.env) (cfg (j + 1 + 1) (IAm.W ((1 : Nat) : Int)) b1 mem1)
+            (Isa.simout io v1 v2) 1 _ t2 (ld_one mem1)
+          have l3 : Isa.ld mem1 (mem1.read 1 + IAm.W 1) = some (mem1.read (K.sp + 1)) := by
+            rw [rep1.sp, W_one, add_one, ld_ofNat _ _ hs1a]
+          have sLdai := Step.ldai (env := K.env) (cfg (j + 1 + 1 + 1) (mem1.read 1) b1 mem1)
+            (Isa.simout io v1 v2) 1 _ t3 l3
+          refine ⟨mem1.read (K.sp + 1), b1, mem1, ?_, rep1, fun v hv => by simp at hv, FrmC.refl _ _ _ _⟩
+          rw [hio]
+          exact Steps.step _ _ _ _ _ _ sLdac (Steps.step _ _ _ _ _ _ sSvc
+            (Steps.step _ _ _ _ _ _ sLdam (Steps.one sLdai)))
+  · -- get
+    unfold X.doSyscall
+    simp only [BitVec.ofNat_eq_ofNat]
+    rw [if_neg (by decide), if_neg (by decide), if_pos (by decide)]
+    cases ws with
+    | nil => trivial
+    | cons sv rest =>
+      cases rest with
+      | cons _ _ => trivial
+      | nil =>
+        simp only [List.map_cons, List.map_nil]
+        have hv := hvals 0 (by simp)
+        simp only [Nat.add_zero, List.getElem_cons_zero] at hv
+        have l1 : Isa.ld mem1 (mem1.read 1 + 2) = some sv := by
+          rw [rep1.sp, add_two, ld_ofNat _ _ hs2a, hv]
+        have hsto : IAm.store K.env mem1 (mem1.read 1 + 1) (Isa.simin io sv).1
+            = some (mem1.write (K.sp + 1) (Isa.simin io sv).1) := by
+          rw [rep1.sp, add_one]; exact store_ofNat _ _ _ _ hs1a hs1b
+        have sSvc := Step.svcGet (env := K.env) (cfg (j + 1) (IAm.W ((2 : Nat) : Int)) b1 mem1) io sv _
+          t1 W_two l1 hsto
+        have hsp2 : (mem1.write (K.sp + 1) (Isa.simin io sv).1).read 1 = BitVec.ofNat 32 K.sp := by
+          rw [Mem.read_write_other _ _ _ _ (by have := wf.sp_ge; omega)]; exact rep1.sp
+        have sLdam := Step.ldam (env := K.env)
+          (cfg (j + 1 + 1) (IAm.W ((2 : Nat) : Int)) b1 (mem1.write (K.sp + 1) (Isa.simin io sv).1))
+          (Isa.simin io sv).2 1 _ t2 (ld_one _)
+        have l3 : Isa.ld (mem1.write (K.sp + 1) (Isa.simin io sv).1)
+            ((mem1.write (K.sp + 1) (Isa.simin io sv).1).read 1 + IAm.W 1) = some (Isa.simin io sv).1 := by
+          rw [hsp2, W_one, add_one, ld_ofNat _ _ hs1a, Mem.read_write_same _ _ _ hs1a]
+        have sLdai := Step.ldai (env := K.env)
+          (cfg (j + 1 + 1 + 1) ((mem1.write (K.sp + 1) (Isa.simin io sv).1).read 1) b1
+            (mem1.write (K.sp + 1) (Isa.simin io sv).1))
+          (Isa.simin io sv).2 1 _ t3 l3
+        have frm2 : Frm K (K.S - 1 - 1) (K.S - 1) mem1 (mem1.write (K.sp + 1) (Isa.simin io sv).1) := by
+          intro ad had
+          rw [Mem.read_write_other]
+          intro e
+          apply had (K.S - 1 - 1) (Nat.le_refl _) (by omega)
+          rw [slot_of_out K 1 (by omega)]; exact e.symm
+        have hnS : K.nlocals ≤ K.S - 1 - 1 := by omega
+        refine ⟨(Isa.simin io sv).1, b1, mem1.write (K.sp + 1) (Isa.simin io sv).1, ?_,
+          rep1.frame wf frm2 hnS (by omega), ?_, ?_⟩
+        · rw [hio]
+          exact Steps.step _ _ _ _ _ _ sLdac (Steps.step _ _ _ _ _ _ sSvc
+            (Steps.step _ _ _ _ _ _ sLdam (Steps.one sLdai)))
+        · intro v hv
+          simp only [Option.some.injEq] at hv
+          rw [← hv, hio]
+        · exact (frm2.mono (by omega) (by omega)).toC
+
 
 /-- A system call with call-free actuals, as a statement or in an expression: the code of
     `genSysCall` from a state that represents `st`. -/
@@ -286,139 +423,19 @@ theorem exec_syscall (K : PCtx) (wf : K.WF) (id : Nat) (hid : id < 3) (es : List
     (by rw [← hio]; exact ((evalArgs_pure K.xc es fuel st s _ hp hev).2.2.2.1).symm) h2
     hat.left hr (by omega) hnl (Nat.le_refl _) (fun x hx => hci x hx)
   simp only at frm1
-  -- without actuals every system call is undefined
-  by_cases hws : ws = []
-  · subst hws
-    have hid3 : id = 0 ∨ id = 1 ∨ id = 2 := by omega
-    rcases hid3 with rfl | rfl | rfl <;> (unfold X.doSyscall; simp)
-  have hwpos : 0 < ws.length := by
-    cases ws with
-    | nil => exact absurd rfl hws
-    | cons _ _ => simp
-  have hS3 : 3 ≤ K.S := by omega
-  have htail : K.low (callTail (.sys (id : Int)) gs2.labelCount) = [.imm 0x3 (id : Int), .opr 3, .imm 0x0 1, .imm 0x6 1] := rfl
-  rw [htail] at hat ⊢
-  have hat2 := hat.right
-  have t0 := hat2.get 0 _ rfl
-  have t1 := hat2.get 1 _ rfl
-  have t2 := hat2.get 2 _ rfl
-  have t3 := hat2.get 3 _ rfl
-  simp only [Nat.add_zero] at t0
-  obtain ⟨hs2a, _⟩ := wf.slot_ok (K.S - 1 - 2) (by omega)
-  rw [slot_of_out K 2 (by omega)] at hs2a
-  obtain ⟨hs1a, hs1b⟩ := wf.slot_ok (K.S - 1 - 1) (by omega)
-  rw [slot_of_out K 1 (by omega)] at hs1a hs1b
-  have sLdac := Step.ldac (env := K.env) (cfg (i + (K.low c2).length) a1 b1 mem1) io (id : Int) t0
-  simp only [List.length_append, List.length_cons, List.length_nil]
-  have hid3 : id = 0 ∨ id = 1 ∨ id = 2 := by omega
-  rcases hid3 with rfl | rfl | rfl
-  · -- exit
-    unfold X.doSyscall
-    simp only [BitVec.ofNat_eq_ofNat, if_true]
-    cases ws with
-    | nil => trivial
-    | cons v rest =>
-      cases rest with
-      | cons _ _ => trivial
-      | nil =>
-        simp only [List.map_cons, List.map_nil]
-        have hv := hvals 0 (by simp)
-        simp only [Nat.add_zero, List.getElem_cons_zero] at hv
-        refine ⟨cfg (i + (K.low c2).length + 1) (IAm.W ((0 : Nat) : Int)) b1 mem1, st1.trans (Steps.one sLdac), ?_⟩
-        apply Exit.svcExit
-        · exact t1
-        · exact W_zeroN
-        · show Isa.ld mem1 (mem1.read 1 + 2) = some v
-          rw [rep1.sp, add_two, ld_ofNat _ _ hs2a, hv]
-  · -- put
-    unfold X.doSyscall
-    simp only [BitVec.ofNat_eq_ofNat]
-    rw [if_neg (by decide), if_pos (by decide)]
-    cases ws with
-    | nil => trivial
-    | cons v1 rest =>
-      cases rest with
-      | nil => trivial
-      | cons v2 rest2 =>
-        cases rest2 with
-        | cons _ _ => trivial
-        | nil =>
-          simp only [List.map_cons, List.map_nil]
-          have hv1 := hvals 0 (by simp)
-          have hv2 := hvals 1 (by simp)
-          simp only [Nat.add_zero, List.getElem_cons_zero, List.getElem_cons_succ] at hv1 hv2
-          simp only [List.length_cons, List.length_nil] at hwl
-          obtain ⟨hs3a, _⟩ := wf.slot_ok (K.S - 1 - 3) (by omega)
-          rw [slot_of_out K 3 (by omega)] at hs3a
-          have l1 : Isa.ld mem1 (mem1.read 1 + 2) = some v1 := by
-            rw [rep1.sp, add_two, ld_ofNat _ _ hs2a, hv1]
-          have l2 : Isa.ld mem1 (mem1.read 1 + 3) = some v2 := by
-            rw [rep1.sp, add_three, ld_ofNat _ _ hs3a]
-            have : K.sp + 2 + 1 = K.sp + 3 := by omega
-            rw [← this, hv2]
-          have sSvc := Step.svcPut (env := K.env) (cfg (i + (K.low c2).length + 1) (IAm.W ((1 : Nat) : Int)) b1 mem1) io v1 v2
-            t1 W_oneN l1 l2
-          have sLdam := Step.ldam (env := K.env) (cfg (i + (K.low c2).length + 1 + 1) (IAm.W ((1 : Nat) : Int)) b1 mem1)
-            (Isa.simout io v1 v2) 1 _ t2 (ld_one mem1)
-          have l3 : Isa.ld mem1 (mem1.read 1 + IAm.W 1) = some (mem1.read (K.sp + 1)) := by
-            rw [rep1.sp, W_one, add_one, ld_ofNat _ _ hs1a]
-          have sLdai := Step.ldai (env := K.env) (cfg (i + (K.low c2).length + 1 + 1 + 1) (mem1.read 1) b1 mem1)
-            (Isa.simout io v1 v2) 1 _ t3 l3
-          refine ⟨mem1.read (K.sp + 1), b1, mem1, ?_, rep1, fun v hv => by simp at hv, frm1⟩
-          rw [hio]
-          have : i + ((K.low c2).length + (0 + 1 + 1 + 1 + 1)) = i + (K.low c2).length + 1 + 1 + 1 + 1 := by omega
-          rw [this]
-          exact st1.trans (Steps.step _ _ _ _ _ _ sLdac (Steps.step _ _ _ _ _ _ sSvc
-            (Steps.step _ _ _ _ _ _ sLdam (Steps.one sLdai))))
-  · -- get
-    unfold X.doSyscall
-    simp only [BitVec.ofNat_eq_ofNat]
-    rw [if_neg (by decide), if_neg (by decide), if_pos (by decide)]
-    cases ws with
-    | nil => trivial
-    | cons sv rest =>
-      cases rest with
-      | cons _ _ => trivial
-      | nil =>
-        simp only [List.map_cons, List.map_nil]
-        have hv := hvals 0 (by simp)
-        simp only [Nat.add_zero, List.getElem_cons_zero] at hv
-        have l1 : Isa.ld mem1 (mem1.read 1 + 2) = some sv := by
-          rw [rep1.sp, add_two, ld_ofNat _ _ hs2a, hv]
-        have hsto : IAm.store K.env mem1 (mem1.read 1 + 1) (Isa.simin io sv).1
-            = some (mem1.write (K.sp + 1) (Isa.simin io sv).1) := by
-          rw [rep1.sp, add_one]; exact store_ofNat _ _ _ _ hs1a hs1b
-        have sSvc := Step.svcGet (env := K.env) (cfg (i + (K.low c2).length + 1) (IAm.W ((2 : Nat) : Int)) b1 mem1) io sv _
-          t1 W_two l1 hsto
-        have hsp2 : (mem1.write (K.sp + 1) (Isa.simin io sv).1).read 1 = BitVec.ofNat 32 K.sp := by
-          rw [Mem.read_write_other _ _ _ _ (by have := wf.sp_ge; omega)]; exact rep1.sp
-        have sLdam := Step.ldam (env := K.env)
-          (cfg (i + (K.low c2).length + 1 + 1) (IAm.W ((2 : Nat) : Int)) b1 (mem1.write (K.sp + 1) (Isa.simin io sv).1))
-          (Isa.simin io sv).2 1 _ t2 (ld_one _)
-        have l3 : Isa.ld (mem1.write (K.sp + 1) (Isa.simin io sv).1)
-            ((mem1.write (K.sp + 1) (Isa.simin io sv).1).read 1 + IAm.W 1) = some (Isa.simin io sv).1 := by
-          rw [hsp2, W_one, add_one, ld_ofNat _ _ hs1a, Mem.read_write_same _ _ _ hs1a]
-        have sLdai := Step.ldai (env := K.env)
-          (cfg (i + (K.low c2).length + 1 + 1 + 1) ((mem1.write (K.sp + 1) (Isa.simin io sv).1).read 1) b1
-            (mem1.write (K.sp + 1) (Isa.simin io sv).1))
-          (Isa.simin io sv).2 1 _ t3 l3
-        have frm2 : Frm K (K.S - 1 - 1) (K.S - 1) mem1 (mem1.write (K.sp + 1) (Isa.simin io sv).1) := by
-          intro ad had
-          rw [Mem.read_write_other]
-          intro e
-          apply had (K.S - 1 - 1) (Nat.le_refl _) (by omega)
-          rw [slot_of_out K 1 (by omega)]; exact e.symm
-        have hnS : K.nlocals ≤ K.S - 1 - 1 := by omega
-        refine ⟨(Isa.simin io sv).1, b1, mem1.write (K.sp + 1) (Isa.simin io sv).1, ?_,
-          rep1.frame wf frm2 hnS (by omega), ?_, ?_⟩
-        · rw [hio]
-          have : i + ((K.low c2).length + (0 + 1 + 1 + 1 + 1)) = i + (K.low c2).length + 1 + 1 + 1 + 1 := by omega
-          rw [this]
-          exact st1.trans (Steps.step _ _ _ _ _ _ sLdac (Steps.step _ _ _ _ _ _ sSvc
-            (Steps.step _ _ _ _ _ _ sLdam (Steps.one sLdai))))
-        · intro v hv
-          simp only [Option.some.injEq] at hv
-          rw [← hv, hio]
-        · exact frm1.trans ((frm2.mono (by omega) (by omega)).toC)
+  have htl := exec_systail K wf id hid ws st s gs2.labelCount gs.offset (i + (K.low c2).length) a1 b1 mem1 io hio hat.right rep1
+    (fun k hk => hvals k hk) hnl (by omega)
+  cases hd : X.doSyscall (BitVec.ofNat 32 id) (ws.map Val.int) s with
+  | undef w => trivial
+  | exit cd s' =>
+    rw [hd] at htl
+    obtain ⟨c, st2, ex⟩ := htl
+    exact ⟨c, st1.trans st2, ex⟩
+  | ok r s' =>
+    rw [hd] at htl
+    obtain ⟨a', b', mem', st2, rep2, hres, frm2⟩ := htl
+    refine ⟨a', b', mem', ?_, rep2, hres, frm1.trans frm2⟩
+    rw [List.length_append, ← Nat.add_assoc]
+    exact st1.trans st2
 
 end Hex.C01s
